@@ -112,6 +112,29 @@ def gen_config(rng, quick, force=None):
     return problem, prim, kw
 
 
+def tracking_cut_scenarios():
+    """deterministic runs that route EVERY particle type through the real tracking-cut action
+    (TrackingCutExecutor), in flight (`errat`: CoreTrackView::apply_errored after the N-th
+    along-step) and at initialisation (started outside the world), with and without an at-rest
+    process for the positron, for each along-step variant"""
+    names = ("positron", "anti-celeriton", "electron", "gamma", "celeriton")
+    out = []
+    for k, (along, posrest, errat) in enumerate((("vlinear", 0, 1), ("vfluct", 1, 1),
+                                                 ("linear", 1, 2), ("vlinear", 1, 3),
+                                                 ("neutral", 0, 1))):
+        prim = [(n, 0.5 + 0.75 * j + 0.1 * k, [0.1 * (j + 1), 0.05 * k, 0.0],
+                 [1.0, 0.0, 0.0] if j % 2 == 0 else [0.0, 0.0, -1.0], j % 3, 3)
+                for j, n in enumerate(names)]
+        prim += [(n, 0.3 + 0.4 * j, [150.0, 0.0, 0.0], [1.0, 0.0, 0.0], 3, 2)
+                 for j, n in enumerate(names[:4])]
+        kw = {"slots": 8, "along": along, "interactor": 1, "posrest": posrest, "errat": errat,
+              "maxsteps": 400, "maxevents": 4, "postcut": 1, "seed": 12345 + k,
+              "cuts": {"gamma": 0.01, "electron": 0.05, "positron": 0.05},
+              "opts": {"lowest_electron_energy": 0.001 if k % 2 == 0 else 0.2}}
+        out.append(("mock", prim, kw))
+    return out
+
+
 def run_harness(exe, problem, prim, kw, timeout=600):
     lines = steplog.script(problem, prim, **kw)
     rc, out = vlib.run_lines([exe], lines, timeout=timeout)
@@ -367,8 +390,13 @@ def run(ctx):
     distinct = set()
     forced = ["mock", "simple", "mock", "mock"]
     pair_checked = 0
-    for i in range(n_runs):
-        problem, prim, kw = gen_config(ctx.rng, quick, forced[i] if i < len(forced) else None)
+    tc_runs = tracking_cut_scenarios()
+    tc_cover = {"anti-inflight": 0, "anti-at-init": 0, "matter-inflight": 0, "matter-at-init": 0}
+    for i in range(-len(tc_runs), n_runs):
+        if i < 0:
+            problem, prim, kw = tc_runs[i + len(tc_runs)]
+        else:
+            problem, prim, kw = gen_config(ctx.rng, quick, forced[i] if i < len(forced) else None)
         if i == 1:   # a deterministic run exercising the cleared-secondary path of the cut loop
             problem, kw = "simple", dict(kw, postcut=1, cuts={"gamma": 0.0, "electron": 0.0},
                                          slots=8, order="none", capacity=4096, stackfactor=3)
@@ -384,6 +412,10 @@ def run(ctx):
                           {"script": lines, "rc": rc, "errors": log.errors[:5]}, found_input=False)
             continue
         along = kw.get("along", "neutral")
+        for s_ in log.steps:
+            if s_.act == log.q["tracking-cut"] and s_.st[4] == "k":
+                tc_cover[("anti" if log.particles[s_.pid]["anti"] else "matter")
+                         + ("-at-init" if s_.st[1] == "e" else "-inflight")] += 1
         # ---- (b) impl-side oracle
         fails, cnt = oracle(log)
         for k in ("steps", "tracks", "events"):
@@ -453,6 +485,10 @@ def run(ctx):
                                                  "first": next(((x, y) for x, y in zip(a, b)
                                                                 if x != y), None),
                                                  "len": [len(a), len(b)]}})
+    if min(tc_cover.values()) == 0:
+        ctx.violation("coverage-tracking-cut", "no step went through the real tracking-cut action "
+                      "for: " + ", ".join(k for k, v in tc_cover.items() if v == 0),
+                      {"tracking_cut_steps": tc_cover}, found_input=False)
     if broken and not ctx.violations:
         ctx.violation("unproved", "; ".join(broken)[:600], {"no_longer_checks": broken},
                       found_input=False)
@@ -478,6 +514,7 @@ def run(ctx):
                 "action) replayed through the Lean model; every one exercises at least the "
                 "ElossApplier or a post action; oracle evaluated on every step/track/event",
         "runs": stats["runs"], "steps_checked_by_oracle": stats["steps"],
+        "tracking_cut_steps(real TrackingCutExecutor)": tc_cover,
         "tracks_completed": stats["tracks"], "events_completed": stats["events"],
         "steps_replayed_through_model": stats["replayed"], "model_mismatches": stats["mismatch"],
         "not_replayable": stats["skipped"], "run_verdicts": stats["verdicts"],
